@@ -302,21 +302,47 @@ func ruleGLOB(w *World, r *Report, o globOpts) {
 		key := shortName(fn)
 		lists := ""
 		hasPrefix, hasSuffix := false, false
-		for _, c := range callInstrs(fn) {
-			f := c.Common().StaticCallee()
-			if f == nil {
-				continue
+		// dependsOnParam: does v (a value of function `in`) derive from parameter k of fn - directly, or, when
+		// `in` is a private helper of fn's region, through the argument fn passes for the helper's parameter?
+		var dependsOnParam func(v ssa.Value, in *ssa.Function, k int, depth int) bool
+		dependsOnParam = func(v ssa.Value, in *ssa.Function, k int, depth int) bool {
+			if in == fn {
+				return k < len(fn.Params) && dependsOn(v, fn.Params[k])
 			}
-			switch f.String() {
-			case "io/ioutil.ReadDir", "os.ReadDir", "(*os.File).Readdir", "(*os.File).Readdirnames", "(*os.File).ReadDir":
-				lists = f.String()
-			case "strings.HasPrefix":
-				if len(fn.Params) >= 3 && len(c.Common().Args) == 2 && dependsOn(c.Common().Args[1], fn.Params[1]) {
-					hasPrefix = true
+			if depth > 2 {
+				return false
+			}
+			for j, prm := range in.Params {
+				if !dependsOn(v, prm) {
+					continue
 				}
-			case "strings.HasSuffix":
-				if len(fn.Params) >= 3 && len(c.Common().Args) == 2 && dependsOn(c.Common().Args[1], fn.Params[2]) {
-					hasSuffix = true
+				for _, cf := range region(fn) {
+					for _, c := range callInstrs(cf) {
+						if c.Common().StaticCallee() == in && j < len(c.Common().Args) && dependsOnParam(c.Common().Args[j], cf, k, depth+1) {
+							return true
+						}
+					}
+				}
+			}
+			return false
+		}
+		for _, rf := range region(fn) {
+			for _, c := range callInstrs(rf) {
+				f := c.Common().StaticCallee()
+				if f == nil {
+					continue
+				}
+				switch f.String() {
+				case "io/ioutil.ReadDir", "os.ReadDir", "(*os.File).Readdir", "(*os.File).Readdirnames", "(*os.File).ReadDir":
+					lists = f.String()
+				case "strings.HasPrefix":
+					if len(fn.Params) >= 3 && len(c.Common().Args) == 2 && dependsOnParam(c.Common().Args[1], rf, 1, 0) {
+						hasPrefix = true
+					}
+				case "strings.HasSuffix":
+					if len(fn.Params) >= 3 && len(c.Common().Args) == 2 && dependsOnParam(c.Common().Args[1], rf, 2, 0) {
+						hasSuffix = true
+					}
 				}
 			}
 		}
@@ -339,13 +365,27 @@ func ruleGLOB(w *World, r *Report, o globOpts) {
 				}
 				for _, f := range domFacts(b) {
 					okCond := true
+					var nameOnly func(nm string, cl *ssa.Call, depth int) bool
+					nameOnly = func(nm string, cl *ssa.Call, depth int) bool {
+						switch {
+						case nm == "strings.HasPrefix", nm == "strings.HasSuffix", nm == "builtin len", strings.HasSuffix(nm, ".Name"),
+							nm == "path/filepath.Split", nm == "io/ioutil.ReadDir", nm == "os.ReadDir", strings.Contains(nm, "Readdir"), strings.Contains(nm, "ReadDir"):
+							return true
+						}
+						// a private predicate of the region that itself only looks at the name
+						if g := cl.Call.StaticCallee(); g != nil && depth < 2 && inRegion(fn, g) && g != fn {
+							for _, c2 := range callInstrs(g) {
+								if cc, ok := c2.(*ssa.Call); ok && !nameOnly(calleeName(&cc.Call), cc, depth+1) {
+									return false
+								}
+							}
+							return true
+						}
+						return false
+					}
 					backSlice(f.Cond, func(v ssa.Value) bool {
 						if cl, ok := v.(*ssa.Call); ok {
-							nm := calleeName(&cl.Call)
-							switch {
-							case nm == "strings.HasPrefix", nm == "strings.HasSuffix", nm == "builtin len", strings.HasSuffix(nm, ".Name"),
-								nm == "path/filepath.Split", nm == "io/ioutil.ReadDir", nm == "os.ReadDir", strings.Contains(nm, "Readdir"), strings.Contains(nm, "ReadDir"):
-							default:
+							if !nameOnly(calleeName(&cl.Call), cl, 0) {
 								okCond = false
 							}
 						}
